@@ -97,3 +97,75 @@ Theorem C07_basinmap_alloc_complete :
     forall c, (c < 10)%nat -> exists m', slot slots c = Some m' /\ m' <> m.
 Proof. exact alloc_fails. Qed.
 Print Assumptions C07_basinmap_alloc_complete.
+
+(* Any sequence of store_basin calls (reuse by equality, explicit names):
+   afterwards every basin definition written refers to a basinmap feature
+   holding exactly the map requested for it, and maps present before are
+   unchanged. *)
+Theorem C07_store_basins_sound :
+  forall (sbs : list sbasin) (fl fl' : file),
+    length (f_slots fl) = 10%nat ->
+    Forall (fun sb => match sb with
+                      | SBFile _ (Some _) (Some k) _ => 0 <= k < 10
+                      | _ => True
+                      end) sbs ->
+    store_basins fl sbs = Some fl' ->
+    length (f_slots fl') = 10%nat /\
+    f_innate fl' = f_innate fl /\
+    (forall j m0, slot (f_slots fl) j = Some m0 ->
+                  slot (f_slots fl') j = Some m0) /\
+    exists bs, f_basins fl' = f_basins fl ++ bs /\
+               Forall2 (fun sb b => slot_holds (f_slots fl') b (sb_map sb))
+                       sbs bs.
+Proof. exact store_basins_sound. Qed.
+Print Assumptions C07_store_basins_sound.
+
+(* Export of a filtered hierarchy child: translation to child events followed
+   by the filter, for any upstream mapping. *)
+Theorem C07_export_child_map_compose :
+  forall (basin_data : list Z) (m : option (list Z))
+         (root_data idx_root child_data : list Z) (filt : list bool),
+    view_through basin_data m = Some root_data ->
+    gather root_data idx_root = Some child_data ->
+    zlen child_data = zlen filt ->
+    exists m1 m', hier_map idx_root m = Some m1 /\
+                  export_map filt (Some m1) = Some m' /\
+                  gather basin_data m' = Some (mask filt child_data).
+Proof. exact export_child_map_compose. Qed.
+Print Assumptions C07_export_child_map_compose.
+
+(* In any store of files whose stored features and basin definitions are
+   consistent with the measurement (store_sound), the complete lookup of
+   RTDCBase.__getitem__ (innate, internal, file basins in priority order,
+   basins of basins to any depth) returns, for every feature it can read, the
+   origin's feature at the origin events of the file. *)
+Theorem C07_lookup_sound :
+  forall (truth : Z -> list Z) (omap : nat -> list Z) (st : store)
+         (fid : nat) (f : Z) (d : list Z),
+    store_sound truth omap st ->
+    resolve st fid f = Some d ->
+    gather (truth f) (omap fid) = Some d.
+Proof. exact resolve_sound. Qed.
+Print Assumptions C07_lookup_sound.
+
+(* ... and every access pattern on the object handed out (direct data or
+   mapping proxy in any reachable cache state) equals numpy indexing of the
+   origin's feature at the file's origin events. *)
+Theorem C07_query_sound :
+  forall (truth : Z -> list Z) (omap : nat -> list Z) (st : store)
+         (fid : nat) (f : Z) (o : obj) (mapped : list Z)
+         (cache : option (list Z)) (ix : index),
+    store_sound truth omap st ->
+    lookup (fuel_of st) st fid f = Some o ->
+    gather (truth f) (omap fid) = Some mapped ->
+    match o with
+    | ODirect d => np_index d ix = np_index mapped ix
+    | OProxy d m =>
+        forall dm, gather d m = Some dm ->
+        (cache = None \/
+         (is_scalar_feat f = true /\ cache = Some dm)) ->
+        snd (proxy_getitem Z d m (is_scalar_feat f) cache ix)
+        = np_index mapped ix
+    end.
+Proof. exact query_sound. Qed.
+Print Assumptions C07_query_sound.
